@@ -273,7 +273,7 @@ def judge_rules(report, cases, results, lines, findings, pid, nontrivial, check_
                     if obs != model:
                         report.corr_disagreements.append({'case': rule_sexp(case), 'model': model, 'impl': obs})
                     continue
-                if key.startswith('on') and 'C05-F4' in fnd and ev >= 1 and 'a' in rule_shape(case['rule']) and \
+                if key.startswith('on') and 'C05-F4' in fnd and 'a' in rule_shape(case['rule']) and \
                         all(sorted(r) == want for r in res['impl'].get(key.replace('on', 'off', 1), {'outs': []})['outs']):
                     report.known['C05-F4'] = report.known.get('C05-F4', 0) + 1
                     report.known_text['C05-F4'] = fnd['C05-F4']['what']
